@@ -6,6 +6,8 @@ import GocoinV.Proofs.C19Reopen
 namespace GocoinV.Proofs.C19
 open GocoinV GocoinV.Qdb GocoinV.QdbSpec
 
+variable {eg : Bool}
+
 /-! ### association lists with distinct keys -/
 
 def Keys {α : Type} (l : List (Key × α)) : List Key := l.map (·.1)
@@ -155,28 +157,28 @@ theorem applyLog_index (es : List LogEntry) (db : DB) :
     | del k => simp only [applyEntry, applyEntryL, (memdel_spec db k).1]
 
 theorem openIndex_index (F : FS) (vol : Bool) (opts : Opts) :
-    (openIndex { fs := F, volatile := vol, opts := opts }).index = diskIndex F := by
+    (openIndex { fs := F, volatile := vol, opts := opts, eager := eg }).index = diskIndex F := by
   unfold openIndex
   dsimp only
   rw [(frame_cleanupold _ _).index]
   unfold diskIndex snapBase logEntries snapVer loaddat
   cases hp : pickIdx F with
   | none =>
-    simp only [show ({ fs := F, volatile := vol, opts := opts } : DB).fs = F from rfl, hp]
+    simp only [show ({ fs := F, volatile := vol, opts := opts, eager := eg } : DB).fs = F from rfl, hp]
     unfold loadlog
     cases hl : F.log with
     | none => simp [hl, applyEntriesL]
     | some f =>
       simp only [hl]
       cases hb : logBody f 0 with
-      | none => simp [show ({ fs := F, volatile := vol, opts := opts } : DB).verSeq = 0 from rfl, hb, applyEntriesL, emit]
+      | none => simp [show ({ fs := F, volatile := vol, opts := opts, eager := eg } : DB).verSeq = 0 from rfl, hb, applyEntriesL, emit]
       | some body =>
-        simp only [show ({ fs := F, volatile := vol, opts := opts } : DB).verSeq = 0 from rfl, hb]
+        simp only [show ({ fs := F, volatile := vol, opts := opts, eager := eg } : DB).verSeq = 0 from rfl, hb]
         rw [applyLog_index]
   | some t =>
     obtain ⟨i, sv, d⟩ := t
-    simp only [show ({ fs := F, volatile := vol, opts := opts } : DB).fs = F from rfl, hp]
-    let dbE : DB := { emit ({ fs := F, volatile := vol, opts := opts } : DB) "qdb.loadneweridx:removed" (.removeIdx (1 - i)) with
+    simp only [show ({ fs := F, volatile := vol, opts := opts, eager := eg } : DB).fs = F from rfl, hp]
+    let dbE : DB := { emit ({ fs := F, volatile := vol, opts := opts, eager := eg } : DB) "qdb.loadneweridx:removed" (.removeIdx (1 - i)) with
       datIdx := i, verSeq := sv }
     obtain ⟨hi, hv⟩ := memputAll_isetAll (snapshotRecs d) dbE
     have hfs := (memputAll_fs (snapshotRecs d) dbE).1
